@@ -268,7 +268,7 @@ def run_shard(ctx):
     specs = list(libs.LIBS) + [['synthetic', 'r%d_%d' % (ctx.seed, k)]
                                for k in range(12 if ctx.tier == 'quick'
                                               else 80)]
-    per = 25 if ctx.tier == 'quick' else 300
+    per = 60 if ctx.tier == 'quick' else 400
     for spec in specs:
         lib = get_lib(spec)
         names = [str(g) for g in lib if 'thermochem' in lib[g]]
